@@ -52,8 +52,14 @@ def materialize_defaults(value: Any) -> None:
 
   def traverse(node, state: daglish.State):
     if isinstance(node, config.Buildable):
-      for arg in node.__signature_info__.parameters.values():
-        if arg.default is not arg.empty and arg.name not in node.__arguments__:
+      for index, arg in enumerate(node.__signature_info__.parameters.values()):
+        if arg.default is arg.empty:
+          continue
+        if arg.kind == arg.POSITIONAL_ONLY:
+          # Positional-only arguments are stored (and set) by index.
+          if index not in node.__arguments__:
+            node[index] = arg.default
+        elif arg.name not in node.__arguments__:
           setattr(node, arg.name, arg.default)
     for _ in state.yield_map_child_values(node, ignore_leaves=True):
       pass  # Run lazy iterator.
